@@ -77,6 +77,8 @@ Expand(ts, M) ==
 
 \* what the preprocessor prints for one line of text
 ExpandLine(ss, M) == Plain(Expand(Toks(ss), M))
+\* the macros whose replacement produced tokens of the line (union of the hide sets)
+UsedBy(ts) == UNION {ts[i].hs : i \in 1..Len(ts)}
 LineOK(ss, M) == \A i \in 1..Len(ExpandLine(ss, M)) : ExpandLine(ss, M)[i] # ERR
 
 \* ---------------------------------------------------------------- sanity theorems (checked by TLC)
